@@ -82,6 +82,14 @@ func BuildMessage(plugin *Plugin, desc *generator.Descriptor, isRoot bool, path 
 		return nil, trace.Wrap(err)
 	}
 
+	isEmpty := c.IsEmpty()
+
+	// A message all of whose fields are excluded is generated like a message with no fields
+	if len(fields) == 0 {
+		fields = append(fields, BuildPlaceholderField(c.GetPath()))
+		isEmpty = true
+	}
+
 	message := &Message{
 		NamePath:       c.GetNamePath(),
 		Name:           c.GetName(),
@@ -91,7 +99,7 @@ func BuildMessage(plugin *Plugin, desc *generator.Descriptor, isRoot bool, path 
 		IsRoot:         isRoot,
 		InjectedFields: c.GetInjectedFields(),
 		OneOfNames:     c.GetOneOfNames(),
-		IsEmpty:        c.IsEmpty(),
+		IsEmpty:        isEmpty,
 	}
 
 	message.Comment = c.GetComment()
